@@ -179,6 +179,10 @@ where
             return None;
         }
 
+        // with a known length, reserving more than the length is never needed to reach the end,
+        // and would let the counters wrap around after a huge request
+        let n = n.min(self.initial_len.unwrap_or(n).max(1));
+
         self.progress_and_get_begin_idx(n).and_then(|begin_idx| {
             let guard = self.complete_on_unwind();
             // SAFETY: no other thread has the valid condition to iterate, they are waiting
